@@ -114,6 +114,7 @@ pub struct SentenceGen<'g> {
     pub g: &'g Grammar,
     pub alpha: Vec<char>,
     skippables: Vec<String>,
+    near_skippables: Vec<String>,
 }
 
 struct Walk<'t, 'a> {
@@ -125,20 +126,37 @@ struct Walk<'t, 'a> {
 
 impl<'g> SentenceGen<'g> {
     pub fn new(g: &'g Grammar) -> Self {
+        let mut sg = SentenceGen { g, alpha: alphabet(g), skippables: vec![], near_skippables: vec![] };
+        // skippable texts are sentences of the skip rules themselves; their proper prefixes are
+        // texts that only look skippable
+        let tapes: [&[u8]; 5] = [&[0; 24], &[255; 24], &[128, 40, 220, 90, 170, 10, 250, 60], &[70, 200, 130, 20, 240, 110, 180, 50], &[200, 100, 30, 160, 90, 250, 10, 140]];
         let mut skippables = vec![];
-        if g.has_ws() {
-            skippables.push(" ".to_string());
-            skippables.push("  ".to_string());
-            skippables.push("\t".to_string());
-            skippables.push("\n".to_string());
+        let mut near = vec![];
+        for rule in ["WHITESPACE", "COMMENT"] {
+            if !g.has(rule) {
+                continue;
+            }
+            for t in tapes {
+                let mut tape = Tape::new(t);
+                let s = sg.sentence(rule, &mut tape);
+                if !s.is_empty() && s.chars().count() <= 12 {
+                    let cs: Vec<char> = s.chars().collect();
+                    if cs.len() >= 2 {
+                        near.push(cs[..cs.len() - 1].iter().collect::<String>());
+                        near.push(cs[..1].iter().collect::<String>());
+                    }
+                    skippables.push(s);
+                }
+            }
         }
-        if g.has_comment() {
-            skippables.push("#c#".to_string());
-            skippables.push("/*x*/".to_string());
-            skippables.push("//ab".to_string());
-            skippables.push("##".to_string());
-        }
-        SentenceGen { g, alpha: alphabet(g), skippables }
+        skippables.sort();
+        skippables.dedup();
+        near.sort();
+        near.dedup();
+        near.retain(|n| !skippables.contains(n));
+        sg.skippables = skippables;
+        sg.near_skippables = near;
+        sg
     }
 
     /// Text that is (possibly) skippable, or only looks skippable.
@@ -153,7 +171,10 @@ impl<'g> SentenceGen<'g> {
         s
     }
     pub fn looks_skippable(&self, t: &mut Tape) -> String {
-        ["#c", "/*x", "/", "# ", " #", "/*x*"][t.below(6)].to_string()
+        if self.near_skippables.is_empty() {
+            return ["#c", "/*x", "/", "# ", " #", "/*x*"][t.below(6)].to_string();
+        }
+        self.near_skippables[t.below(self.near_skippables.len())].clone()
     }
 
     pub fn sentence(&self, rule: &str, t: &mut Tape) -> String {
